@@ -66,3 +66,96 @@ Proof. exact resume_processes_missing. Qed.
 (** ... and never touching a record that was already there *)
 Theorem rerun_never_rewrites : forall f inputs st, exists added, apply_to f inputs st = st ++ added.
 Proof. exact apply_to_extends. Qed.
+
+(** ---- exception classes: the handler set is a parameter (read from the source by the driver) ---- *)
+
+(** an exception of ANY class raised by ANY operation, whatever the except-clauses name,
+    leaves dest in {old, new} *)
+Theorem fault_any_class_dest_safe : forall H e old chunks k,
+  let s := run_fault_cls H e k (prog_ok commit_replace chunks) (init old) in
+  dest s = old \/ dest s = Some (concat chunks).
+Proof. exact fault_cls_dest_safe. Qed.
+
+(** if both cleanup clauses (in _get_fileobj and in __exit__) catch the class of the
+    exception, nothing temporary remains, wherever it was raised *)
+Theorem caught_failure_no_temp : forall H e old chunks k o,
+  catches (h_enter H) e = true -> catches (h_exit H) e = true ->
+  nth_error (prog_ok commit_replace chunks) k = Some o ->
+  no_tmp (run_fault_cls H e k (prog_ok commit_replace chunks) (init old)) = true.
+Proof. exact fault_cls_clean. Qed.
+
+(** hence: clauses covering every Exception class clean up after every handled failure
+    (OSError, ValueError, AttributeError, any other Exception) *)
+Theorem handled_failure_no_temp_any_class : forall H e old chunks k o,
+  covers_handled H = true -> In e handled_classes ->
+  nth_error (prog_ok commit_replace chunks) k = Some o ->
+  no_tmp (run_fault_cls H e k (prog_ok commit_replace chunks) (init old)) = true.
+Proof. exact fault_handled_clean. Qed.
+
+(** `except Exception` in both places (the present source) satisfies the premise *)
+Theorem except_exception_covers : covers_handled handlers_exception = true.
+Proof. exact handlers_exception_cover. Qed.
+
+(** clauses narrowed to OSError do not: a ValueError from opening the temporary file
+    leaves the temporary directory behind (formal counterpart of that regression) *)
+Theorem oserror_only_handlers_refuted :
+  exists e old chunks k,
+    In e handled_classes /\
+    no_tmp (run_fault_cls {| h_enter := [BOSError]; h_exit := [BOSError] |} e k
+              (prog_ok commit_replace chunks) (init old)) = false.
+Proof. exact oserror_only_leaks. Qed.
+
+(** ---- zip targets ---- *)
+
+(** `.zip` destination (temporary archive, then one replace): killed before ANY operation
+    the destination is the previous archive (or absent) or holds exactly the new member *)
+Theorem zip_atomic_at_every_prefix : forall old chunks k,
+  let s := zrun (firstn k (zprog_staged chunks)) (zinit old) in
+  zdest s = old \/ zdest s = Some (Members [concat chunks]).
+Proof. exact zip_staged_prefix. Qed.
+
+(** ... and a completed write leaves exactly one member, the new content, nothing temporary *)
+Theorem zip_completed_write_is_new : forall old chunks,
+  zrun (zprog_staged chunks) (zinit old)
+  = {| zdest := Some (Members [concat chunks]); zouter := false; zstaged := None; zinner := false; zfile := None |}.
+Proof. exact zip_staged_complete. Qed.
+
+(** an archive appended to IN PLACE (explicit in_zip today; a `.zip` destination if the
+    temporary archive is ever bypassed) is not all-or-nothing: finding C19-5 *)
+Theorem zip_append_in_place_refuted :
+  exists chunks k,
+    let s := zrun (firstn k (zprog_append false chunks)) (zinit None) in
+    zdest s <> None /\ zdest s <> Some (Members [concat chunks]).
+Proof. exact zip_append_not_atomic. Qed.
+
+(** ... and over an existing single-member archive it does not leave exactly the new content *)
+Theorem zip_append_over_existing_refuted :
+  exists o chunks,
+    zdest (zrun (zprog_append true chunks) (zinit (Some (Members [o])))) = Some (Members [o; concat chunks])
+    /\ Some (Members [o; concat chunks]) <> Some (Members [concat chunks]).
+Proof. exact zip_append_keeps_old_member. Qed.
+
+(** ---- resume with failing (not-completed) inputs ---- *)
+
+(** interrupted after ANY number of inputs, with ANY of them ending not-completed,
+    re-running apply_to on the same store ends in the store of the uninterrupted run *)
+Theorem resume_with_failures_equals_uninterrupted : forall g k inputs st,
+  apply_nc g inputs (interrupted_nc g k inputs st) = apply_nc g inputs st.
+Proof. exact resume_nc_same. Qed.
+
+(** inputs with a completed record are not processed again ... *)
+Theorem resume_never_reprocesses_completed : forall g k inputs st i,
+  In i (processed_nc inputs (interrupted_nc g k inputs st)) ->
+  has_c (interrupted_nc g k inputs st) i = false.
+Proof. exact resume_nc_skips_completed. Qed.
+
+(** ... every other input is *)
+Theorem resume_processes_every_other_input : forall g k inputs st i,
+  In i inputs -> has_c (interrupted_nc g k inputs st) i = false ->
+  In i (processed_nc inputs (interrupted_nc g k inputs st)).
+Proof. exact resume_nc_processes_rest. Qed.
+
+(** re-running the same inputs on a finished store changes nothing *)
+Theorem rerun_is_idempotent : forall g inputs st,
+  apply_nc g inputs (apply_nc g inputs st) = apply_nc g inputs st.
+Proof. exact apply_nc_idem. Qed.
